@@ -239,7 +239,7 @@ pub fn run_case(c: &C06Case, n: u64) -> Verdict {
 pub fn check(tier: Tier) -> i32 {
     let ctx = Ctx::new("C06", tier);
     replay_corpus::<C06Case, _>(&ctx, run_case);
-    drive(&ctx, "main", tier.pick(2500, 40000), case_strategy, run_case);
+    drive(&ctx, "main", tier.pick(5000, 50000), case_strategy, run_case);
     cleanup_process_scratch();
     ctx.finish(
         "exploration",
